@@ -216,6 +216,7 @@ class Terminal(Service, discriminator="terminal"):
             command: str = request[1]["command"]
             remote_connection = self._get_connection_from_ip(ip_address=ip_address)
             if remote_connection:
+                self._last_response = None  # only an answer to THIS command counts
                 remote_connection.execute(command)
                 return (
                     self.last_response
